@@ -690,6 +690,10 @@ class Unit:
         text = rw.sub("R12", r'Some\(\s*&\[\s*(\w+\.into_raw_fd\(\))\s*\]\s*\)', r'fd_slice1(\1)', text)
         for (rule, pat, rep) in (extra or []):
             text = rw.sub(rule, pat, rep, text, flags=re.S)
+        # R6: errno constants of the libc crate (Linux values)
+        errno = {"EPERM": 1, "ENOENT": 2, "EIO": 5, "EBADF": 9, "EAGAIN": 11, "ENOMEM": 12, "EACCES": 13, "EFAULT": 14, "EBUSY": 16, "EEXIST": 17,
+                 "EINVAL": 22, "EPIPE": 32, "ENOSYS": 38, "EPROTO": 71, "ENOTSUP": 95, "ECONNRESET": 104, "ENOBUFS": 105}
+        text = rw.sub("R6", r'\blibc::(E[A-Z]+)\b', lambda m: "%di32" % errno.get(m.group(1), 5), text)
         return text
 
     def extracted_fn(self, src, fn, within=None, nth=0, contract="", sig_rw=None, body_rw=None, loops=None,
